@@ -442,6 +442,13 @@ func C10(p *Prog, r *Run) {
 				okR = true
 			}
 		}
+		// the same filter written with the standard library: the list stored is slices.DeleteFunc / slices.Delete
+		// (documented to keep the remaining elements in their order) of the species' list or of a plain copy of it
+		for _, st := range FieldStores(rem, orgsF) {
+			if c10OrderKeepingDelete(tr, st.Val, "recv.Organisms") {
+				okR = true
+			}
+		}
 		r.Check(okR, "removeOrganism.order", p.Pos(rem.Pos()), "the remaining organisms are appended in their original order", "removeOrganism does not keep the remaining organisms in order")
 	})
 
@@ -473,32 +480,21 @@ func C10(p *Prog, r *Run) {
 			{"ParallelPopulationEpochExecutor.NextEpoch", p.Func(PkgG, "ParallelPopulationEpochExecutor.NextEpoch")},
 		}
 		nFacts := 0
+		var cw *closureWT
 		for _, t := range tgts {
 			r.Fn(FuncName(t.fn))
-			var bad []string
 			pos := p.Pos(t.fn.Pos())
-			idxs := []int{rootGlobal, rootUnknown}
-			for i := range t.fn.Params {
-				idxs = append(idxs, i)
+			// Writes that go through variables captured by function literals (a local table of closures over the
+			// offspring's genome) are decided by what the creating function bound; writes made by calling a method
+			// value are followed through the compiler's wrapper (robust_c10.go closureAwareWT).
+			if cw == nil {
+				_, base := p.writeSet(t.fn, 0)
+				cw = closureAwareWT(p, base)
 			}
-			for _, idx := range idxs {
-				who := "an object of unknown origin"
-				switch {
-				case idx >= 0:
-					who = "parameter " + t.fn.Params[idx].Name()
-				case idx == rootGlobal:
-					who = "a package variable"
-				}
-				ws, _ := p.writeSet(t.fn, idx)
-				for _, k := range sortedKeys(ws) {
-					nFacts++
-					if genomeContentFact(k) {
-						if len(bad) == 0 {
-							pos = p.Pos(ws[k].Pos)
-						}
-						bad = append(bad, fmt.Sprintf("%s through %s (at %s via %s)", k, who, p.Pos(ws[k].Pos), strings.Join(ws[k].Via, " -> ")))
-					}
-				}
+			bad, first, n := c10WrittenContent(p, t.fn, cw)
+			nFacts += n
+			if len(bad) > 0 {
+				pos = p.Pos(first)
 			}
 			r.Check(len(bad) == 0, "champion-intact:"+t.name, pos, "no genome content of a pre-existing organism is written",
 				t.name+" writes genome content of an object that existed before the call: "+strings.Join(bad, "; ")+" - when that object belongs to a species' champion (for example the champion picked as the second parent of an interspecies mating before its own species reproduces), the genome that is cloned afterwards, or the clone itself, is no longer the champion's genome of the previous generation")
